@@ -27,6 +27,9 @@ CHECKS.update({
 CHECKS["C07"] = dict(category="model_checking", technique="TLA+ PageSpec reader model with altered pages: exhaustive TLC search, every edge replayed on the real PagedReader; Trace_C07 validation of exhaustive single-bit flips of real files in both CRC builds",
    text="Page level: all reader histories (seek/read/align, reads after failures) over small images with every subset of up to 2/3 altered pages, exhaustively in TLC with the verdict/no-stale-data properties, each edge replayed on the real PagedReader. File level: every single-bit flip of small real files (plus sampled 2/3-bit flips, bursts, overwrites), several operation orders on one reader, outcome classes validated by TLC (fail or identical to the unaltered file; validate_crc fails iff a page is altered); software and crc32c builds give byte-identical files whose every page seal equals CRC-32C computed in TLA+.",
    note="Trusts TLC, PageSpec/Crc32c, harness recording (outcome classes are byte comparisons with the unaltered file's result) and its independent CRC used to confirm that an alteration is detectable. The Hamming-distance clause follows analytically from the pinned polynomial.", ref="6 C07")
+CHECKS["C17"] = dict(category="model_checking", technique="TLA+ PageSpec reader model (PropFresh) checked exhaustively by TLC with every edge replayed on the real PagedReader; Trace_C17 validation of exhaustive file-level operation sequences",
+   text="The only state shared between read operations is the page reader: its model is searched exhaustively (all histories incl. failures on altered pages) with the property that every read returns what an empty-cache reader would, each edge replayed on the real type with per-page cache probes. At file level every sequence of operations up to depth 2/3 (complete and partly consumed raw/simple iterations, blobs, xml, listings) on pristine, page-damaged and section-damaged real files is run on one reader and compared with fresh readers; TLC validates the comparison classes.",
+   note="Trusts TLC, PageSpec, harness recording (classes are byte comparisons of canonical result text).", ref="6 C17")
 NOT_APPLICABLE = {}
 
 def main():
